@@ -20,15 +20,15 @@ Definition run_unit (x : sx) : sx :=
   if str_eqb fn (bytes "range") then
     let r := get_range (sx_str (a 0%nat)) in
     let cl := sx_int (a 1%nat) in
-    let '(st, hs) := set_ranged_headers r cl (sx_int (a 2%nat)) in
+    let '(st, hs, r') := set_ranged_headers r cl (sx_int (a 2%nat)) in
     L [of_bool (match r with Some _ => true | None => false end);
        of_opt_int (match r with Some rr => rr_s rr | None => None end);
        of_opt_int (match r with Some rr => rr_e rr | None => None end);
        I st;
        A (match hs with Some (c, _) => c | None => [] end);
        A (match hs with Some (_, c) => c | None => [] end);
-       I (match r with Some rr => rr_start rr cl | None => 0%Z end);
-       I (match r with Some rr => rr_size rr cl | None => cl end)]
+       I (match r' with Some rr => rr_start rr cl | None => 0%Z end);
+       I (match r' with Some rr => rr_size rr cl | None => cl end)]
   else if str_eqb fn (bytes "recomp") then
     let '(ad, rm) := get_recompression (sx_str (a 0%nat)) (sx_str (a 1%nat)) (sx_str (a 2%nat)) in
     L [enc_ctype ad; enc_ctype rm; of_bool (can_transform (sx_str (a 3%nat)))]
